@@ -40,6 +40,26 @@ def repro_models():
     m.records.append(r)
     m.decls.append(r)
     out.append(("repro-union-bitfields", m, []))
+    # regressions of repaired defects (must hold): shapes of the fix commits cdd653bd, 02377689, 3c2ba0f3, 55fd0099
+    def rec(name, fields, pragma=None, packed=False):
+        m_ = G.Model()
+        r_ = G.Record("struct", name)
+        r_.fields = fields
+        if pragma:
+            r_.pragma_pack = pragma
+        r_.packed = packed
+        m_.records.append(r_)
+        m_.decls.append(r_)
+        return m_
+    sc, sh_, ui, ull, ch, bl = S("unsigned char", False, 8), S("unsigned short", False, 16), S("unsigned int", False, 32), S("unsigned long long", False, 64), S("char", True, 8), S("_Bool", False, 8, "bool")
+    # clang-reported offset must not be re-aligned: b lives at bit 6 under pack(4)
+    out.append(("fixed-02377689-pack4-straddle", rec("FX1", [G.Field(None, sc, bits=3), G.Field("a", sh_, bits=3), G.Field("b", sc, bits=8)], pragma=4), []))
+    out.append(("fixed-02377689-pack2-straddle", rec("FX2", [G.Field("c", ch), G.Field("a", ui, bits=13), G.Field("b", sh_, bits=9), G.Field("d", sc, bits=7)], pragma=2), []))
+    # a run of bit-fields starts where C starts it (byte 4, not 1)
+    out.append(("fixed-cdd653bd-unit-after-bool", rec("FX3", [G.Field("a", bl), G.Field("b", ui, bits=31)]), []))
+    # holes after `int :0` in packed / packed(N) structs
+    out.append(("fixed-3c2ba0f3-pack1-zero-width", rec("FX4", [G.Field("a", S("short", True, 16)), G.Field(None, S("int", True, 32), bits=0), G.Field("b", ull)], pragma=1), []))
+    out.append(("fixed-55fd0099-pack2-zero-width", rec("FX5", [G.Field("a", ch), G.Field(None, S("int", True, 32), bits=0), G.Field("b", S("int", True, 32))], pragma=2), []))
     return out
 
 
